@@ -315,6 +315,34 @@ theorem header_flag_consumed (d : Dialect) (t : ATy) (p : FP) (bs rest : Bytes)
   · cases hf; exact c0
   · cases ha
 
+theorem headerBody_inner_length (t : ATy) (p : FP) (bs : Bytes) (tl0 : TL) (r2 : Bytes) (o : Option (Nat × Nat))
+    (tl : TL) (utag : Nat) (inner rest consumed : Bytes) (outer : Option (Nat × Nat))
+    (h : headerBody t p bs tl0 r2 o = .ok (.body tl utag inner rest consumed outer)) :
+    inner.length = tl.len ∧ tl = tl0 ∧ inner = r2.take tl0.len ∧ rest = r2.drop tl0.len ∧ tl0.len ≤ r2.length ∧ tagMismatch t p tl0 = false ∧
+      utag = utagOf t p tl0 ∧ outer = o := by
+  unfold headerBody at h
+  by_cases hm : tagMismatch t p tl0 = true
+  · rw [if_pos hm] at h; unfold headerMiss at h; split at h <;> cases h
+  · rw [if_neg hm] at h
+    by_cases hl : tl0.len > r2.length
+    · rw [if_pos hl] at h; cases h
+    · rw [if_neg hl] at h
+      simp only [Except.ok.injEq, Hdr.body.injEq] at h
+      obtain ⟨rfl, rfl, rfl, rfl, rfl, rfl⟩ := h
+      exact ⟨by simp; omega, rfl, rfl, rfl, by omega, by simpa using hm, rfl, rfl⟩
+
+/-- **every slice is in range**: the content slice `bytes[offset : offset+t.length]` that `parseField` takes has exactly the
+declared length (the `take` of the model does not truncate), on every path through explicit tags -/
+theorem header_inner_length (d : Dialect) (t : ATy) (p : FP) (bs : Bytes) (tl : TL) (utag : Nat) (inner rest consumed : Bytes)
+    (outer : Option (Nat × Nat)) (h : header d t p bs = .ok (.body tl utag inner rest consumed outer)) :
+    inner.length = tl.len := by
+  obtain ⟨tl0, r1, _, hc⟩ := header_cases d t p bs _ h
+  rcases hc with hb | ⟨tl1, r2, _, hb⟩ | hf | ha
+  · exact (headerBody_inner_length _ _ _ _ _ _ _ _ _ _ _ _ hb).1
+  · exact (headerBody_inner_length _ _ _ _ _ _ _ _ _ _ _ _ hb).1
+  · cases hf
+  · cases ha
+
 theorem parseAny_consumed (d : Dialect) (lax : Bool) (bs : Bytes) (v : AVal) (rest : Bytes)
     (h : parseAny d lax bs = .ok (v, rest)) : Consumed bs rest 2 := by
   unfold parseAny at h
@@ -391,8 +419,10 @@ theorem header_absent_optional (d : Dialect) (t : ATy) (p : FP) (bs : Bytes)
 inductive ShellOK (d : Dialect) (m : Mode) (t : ATy) (p : FP) (bs : Bytes)
     (k : TL → Nat → Bytes → Bytes → Except Err AVal) (v : AVal) (rest : Bytes) : Prop
   | emptyAbsent (hb : bs = []) (ho : p.optional = true) (hr : rest = []) (hv : v = .absent (defaultVal t p))
+      (hom : m.isCanon = true → omitted t p v = true)
   | any (ha : t.isAny = true) (hc : m.isCanon = false) (h : parseAny d m.isLax bs = .ok (v, rest))
   | absent (hh : header (d.forMode m) t p bs = .ok .absent) (ho : p.optional = true) (hr : rest = bs) (hv : v = .absent (defaultVal t p))
+      (hom : m.isCanon = true → omitted t p v = true)
   | flagSet (hh : header (d.forMode m) t p bs = .ok (.flagSet rest)) (hc : m.isCanon = false) (hv : v = .flag true)
   | body (tl : TL) (utag : Nat) (inner consumed : Bytes) (outer : Option (Nat × Nat))
       (hh : header (d.forMode m) t p bs = .ok (.body tl utag inner rest consumed outer))
@@ -400,11 +430,15 @@ inductive ShellOK (d : Dialect) (m : Mode) (t : ATy) (p : FP) (bs : Bytes)
       (hcanon : m.isCanon = true → (canonParams t p && canonOuter tl (inner.length + rest.length) outer) = true ∧ omitted t p v = false)
 
 theorem absentResult_ok (m : Mode) (t : ATy) (p : FP) (r : Bytes) (v : AVal) (rest : Bytes)
-    (h : absentResult m t p r = .ok (v, rest)) : v = .absent (defaultVal t p) ∧ rest = r := by
+    (h : absentResult m t p r = .ok (v, rest)) : v = .absent (defaultVal t p) ∧ rest = r ∧ (m.isCanon = true → omitted t p v = true) := by
   unfold absentResult at h
   by_cases hc : (m.isCanon && !omitted t p (.absent (defaultVal t p))) = true
   · rw [if_pos hc] at h; cases h
-  · rw [if_neg hc] at h; cases h; exact ⟨rfl, rfl⟩
+  · rw [if_neg hc] at h; cases h
+    refine ⟨rfl, rfl, ?_⟩
+    intro hm
+    rw [hm] at hc
+    simpa using hc
 
 theorem fieldShell_ok (d : Dialect) (m : Mode) (t : ATy) (p : FP) (bs : Bytes)
     (k : TL → Nat → Bytes → Bytes → Except Err AVal) (v : AVal) (rest : Bytes)
@@ -414,8 +448,8 @@ theorem fieldShell_ok (d : Dialect) (m : Mode) (t : ATy) (p : FP) (bs : Bytes)
   · rw [if_pos hb] at h
     by_cases ho : p.optional = true
     · rw [if_pos ho] at h
-      obtain ⟨hv, hr⟩ := absentResult_ok _ _ _ _ _ _ h
-      exact .emptyAbsent hb ho hr hv
+      obtain ⟨hv, hr, hom⟩ := absentResult_ok _ _ _ _ _ _ h
+      exact .emptyAbsent hb ho hr hv hom
     · rw [if_neg ho] at h; cases h
   · rw [if_neg hb] at h
     by_cases ha : t.isAny = true
@@ -432,8 +466,8 @@ theorem fieldShell_ok (d : Dialect) (m : Mode) (t : ATy) (p : FP) (bs : Bytes)
         cases H with
         | absent =>
           simp only [] at h
-          obtain ⟨hv, hr⟩ := absentResult_ok _ _ _ _ _ _ h
-          exact .absent hh (header_absent_optional _ _ _ _ hh) hr hv
+          obtain ⟨hv, hr, hom⟩ := absentResult_ok _ _ _ _ _ _ h
+          exact .absent hh (header_absent_optional _ _ _ _ hh) hr hv hom
         | flagSet r =>
           simp only [] at h
           by_cases hc : m.isCanon = true
@@ -463,11 +497,11 @@ theorem fieldShell_shrinks (d : Dialect) (m : Mode) (t : ATy) (p : FP) (bs : Byt
     (k : TL → Nat → Bytes → Bytes → Except Err AVal) (v : AVal) (rest : Bytes)
     (h : fieldShell d m t p bs k = .ok (v, rest)) : Shrinks p bs rest := by
   cases fieldShell_ok d m t p bs k v rest h with
-  | emptyAbsent hb ho hr _ => exact ⟨[], by simp [hb, hr], Or.inr ⟨ho, rfl⟩⟩
+  | emptyAbsent hb ho hr _ _ => exact ⟨[], by simp [hb, hr], Or.inr ⟨ho, rfl⟩⟩
   | any _ _ h =>
     obtain ⟨pre, e, hl⟩ := parseAny_consumed d _ bs v rest h
     exact ⟨pre, e, Or.inl hl⟩
-  | absent _ ho hr _ => exact ⟨[], by simp [hr], Or.inr ⟨ho, rfl⟩⟩
+  | absent _ ho hr _ _ => exact ⟨[], by simp [hr], Or.inr ⟨ho, rfl⟩⟩
   | flagSet hh _ _ =>
     obtain ⟨pre, e, hl⟩ := header_flag_consumed _ t p bs _ hh
     exact ⟨pre, e, Or.inl hl⟩
